@@ -207,9 +207,9 @@ def operand_decl(ctype, name, k):
     raise Undecided('no operand generator for lowered parameter type %r' % ctype)
 
 
-def ext_models(u):
+def ext_models(u, slots=4):
     """foreign operand nodes: every virtual accessor a factory may call on an operand is an arbitrary function of the receiver
-    (two receivers cached per accessor; more receivers than that fail an assertion, so nothing is silently identified)"""
+    (`slots` receivers cached per accessor; more receivers than that fail an assertion, so nothing is silently identified)"""
     t = ''
     for v in u.json['virtual_stubs']:
         ret, params, name = v['ret'].strip(), v['params'], v['name'] + '__ext'
@@ -217,16 +217,14 @@ def ext_models(u):
         if ret == 'void':
             t += 'void %s(%s) { }\n' % (name, params); continue
         if ret.endswith('*') and ret.startswith('struct '):
-            mk = 'NEWZ(%s)' % ret[:-1].strip()
+            fresh = '%s x = NEWZ(%s);' % (ret, ret[:-1].strip())
         elif ret.startswith('struct '):
-            t += '%s %s(%s) { static void* r0; static void* r1; static %s v0; static %s v1; static int n;\n  if (n > 0 && r0 == (void*)%s) return v0; if (n > 1 && r1 == (void*)%s) return v1;\n  __CPROVER_assert(n < 2, "foreign-accessor model: at most two receivers per accessor"); %s x; __CPROVER_havoc_object(&x); if (n == 0) { r0 = %s; v0 = x; } else { r1 = %s; v1 = x; } n++; return x; }\n' % (
-                ret, name, params, ret, ret, first, first, ret, first, first)
-            continue
+            fresh = '%s x; __CPROVER_havoc_object(&x);' % ret
         else:
-            mk = None
-        t += '%s %s(%s) { static void* r0; static void* r1; static %s v0; static %s v1; static int n;\n  if (n > 0 && r0 == (void*)%s) return v0; if (n > 1 && r1 == (void*)%s) return v1;\n  __CPROVER_assert(n < 2, "foreign-accessor model: at most two receivers per accessor"); %s x%s; if (n == 0) { r0 = %s; v0 = x; } else { r1 = %s; v1 = x; } n++; return x; }\n' % (
-            ret, name, params, ret, ret, first, first, ret, (' = ' + mk) if mk else '; { %s t; x = t; }' % ret, first, first)
+            fresh = '%s x; { %s t; x = t; }' % (ret, ret)
+        t += '%s %s(%s) { static void* r[%d]; static %s v[%d]; static int n;\n  for (int k = 0; k < %d; k++) if (k < n && r[k] == (void*)%s) return v[k];\n' % (ret, name, params, slots, ret, slots, slots, first)
+        t += '  __CPROVER_assert(n < %d, "foreign-accessor model: number of receivers per accessor within the harness bound"); %s r[n] = %s; v[n] = x; n++; return x; }\n' % (slots, fresh, first)
     return t
 
 
-PRELUDE_C = '#include "flmodel.h"\nstatic void* zalloc(unsigned long n) { return __CPROVER_allocate(n, 1); }   /* fresh zero-initialised object (byte-wise memset of a whole Lexicon costs cbmc minutes) */\n#define NEWZ(T) ((T*)zalloc(sizeof(T)))\n'
+PRELUDE_C = '#include "flmodel.h"\n#include "seqmodel.h"\nstatic void* zalloc(unsigned long n) { return __CPROVER_allocate(n, 1); }   /* fresh zero-initialised object (byte-wise memset of a whole Lexicon costs cbmc minutes) */\n#define NEWZ(T) ((T*)zalloc(sizeof(T)))\n'
